@@ -48,7 +48,7 @@ class TimeSeries():
             except KeyError:
                 break
             try:
-                self.mapping[key] = self.create_mapping(t0, t1, self.initial_guess[key])
+                self.mapping[key] = self.create_mapping(t0, t1, self.initial_guess.get(key, {}))
             except DifferentTissueException:
                 print("Tissues between ", key, " and ", key+1, " too different, skipping...")
                 self.mapping[key] = None
